@@ -26,7 +26,9 @@ RULE = ('Rule-based state machine holding ONE recorder + in-memory cassette and 
         'pool-thread interceptions) is recorded and replayed on this recorder and on a fresh recorder with a fresh '
         'cassette: stored keys, data, metadata (minus duration/timestamp/ids) and Playback outputs must be equal. '
         'A second part uses as history one threaded operation (workers that discard, force sampling and intercept) run '
-        'under the deterministic scheduler (sampled PCT / random schedules), followed by the same idle check and probe. '
+        'under the deterministic scheduler (sampled PCT / random schedules; bounded-preemption DFS for tiny programs, also '
+        'with workers the operation does not wait for, which may still be running when it ends), followed by the same '
+        'idle check and probe. '
         'Non-trivial: a probe preceded by >= 1 abnormal ending (exception, interrupt, discard, failed replay). Distinct = '
         'distinct history up to the probe.')
 ASSUMPTIONS = ['probes use deterministic sampling parameters (the seeded generator is history by design)',
@@ -436,21 +438,32 @@ def probe_after_schedule(ctx, case, chooser=None, account=True):
     return sched
 
 
-def dfs_history(ctx, behs, bound):
-    """Every schedule (bounded preemptions) of a tiny two-worker operation, each followed by the probe."""
+def dfs_history(ctx, behs, bound, detach=False):
+    """Every schedule (bounded preemptions) of a tiny two-worker operation, each followed by the probe.
+    detach: the operation does not wait for its workers (they may still be running when it ends)."""
     from props import C04
     from pbt import detsched as DS
-    case = C04.tiny_threaded(behs)
+    case = C04.tiny_threaded(behs, detach=detach)
 
     def on_run(sched):
-        ctx.case({'dfs-history': behs, 'trace': ''.join(n[-1] for n in sched.trace)}, sched.preemptions >= 1,
-                 classes=('scheduled-history-dfs:' + '+'.join(behs),))
+        ctx.case({'dfs-history': behs, 'detach': detach, 'trace': ''.join(n[-1] for n in sched.trace)},
+                 sched.preemptions >= 1,
+                 classes=('scheduled-history-dfs:' + '+'.join(behs) + (':detached' if detach else ''),))
 
+    if detach:
+        # without the probe (the idle check after the schedule is part of run_scheduled): these need two preemptions
+        # (worker past its check, operation ends, worker goes on), i.e. thousands of schedules
+        return DS.dfs_explore(lambda chooser: C04.run_scheduled(ctx, copy.deepcopy(case), chooser=chooser, account=False),
+                              bound, ctx.shard, ctx.nshards, free_bound=2, max_runs=ctx.pick(4000, 300000),
+                              on_run=on_run)
     return DS.dfs_explore(lambda chooser: probe_after_schedule(ctx, copy.deepcopy(case), chooser=chooser, account=False),
                           bound, ctx.shard, ctx.nshards, free_bound=2, max_runs=ctx.pick(4000, 300000), on_run=on_run)
 
 
 def replay(ctx, case):
+    if isinstance(case, dict) and 'dfs-history' in case:
+        dfs_history(ctx, case['dfs-history'], case.get('bound', 1), case.get('detach', False))
+        return
     if isinstance(case, dict) and case.get('scheduled'):
         probe_after_schedule(ctx, case)
         return
@@ -466,12 +479,14 @@ def run(ctx):
                         label='scheduled-history')
     if ok:
         from pbt.runner import guarded
-        plans = [(['out', 'discard'], 1)] if ctx.quick else [(['out', 'discard'], 2), (['force', 'discard'], 2),
-                                                             (['ret', 'discard'], 2), (['out', 'force'], 1)]
-        for behs, bound in plans:
+        plans = [(['out', 'discard'], 1, False), (['force'], 2, True)] if ctx.quick else [
+            (['out', 'discard'], 2, False), (['force', 'discard'], 2, False), (['ret', 'discard'], 2, False),
+            (['out', 'force'], 1, False), (['force'], 2, True), (['discard'], 2, True), (['out'], 2, True)]
+        for behs, bound, detach in plans:
             def go(c):
-                runs, complete = dfs_history(ctx, behs, bound)
-                ctx.extra['dfs_runs_' + '+'.join(behs)] = runs
-                ctx.extra['dfs_complete_' + '+'.join(behs)] = bool(complete)
-            if not guarded(ctx, {'dfs-history': behs, 'bound': bound}, go):
+                runs, complete = dfs_history(ctx, behs, bound, detach)
+                tag = '+'.join(behs) + (':detached' if detach else '')
+                ctx.extra['dfs_runs_' + tag] = runs
+                ctx.extra['dfs_complete_' + tag] = bool(complete)
+            if not guarded(ctx, {'dfs-history': behs, 'bound': bound, 'detach': detach}, go):
                 break
